@@ -9,6 +9,7 @@ package vrt
 
 import (
 	"fmt"
+	"sort"
 	"runtime"
 	"strings"
 	"sync"
@@ -37,6 +38,7 @@ type LockState struct {
 }
 
 type thread struct {
+	gid     int64 // goroutine id (adopted threads are ordered by it: creation order, not arrival order)
 	id      int
 	name    string
 	resume  chan bool // true = continue, false = abort (Goexit)
@@ -45,6 +47,7 @@ type thread struct {
 	label   string
 	lock    *LockState
 	harness bool
+	silent  bool // parked at a point the harness filter excludes (it parked only because it did not hold the baton)
 }
 
 const (
@@ -75,6 +78,9 @@ type Sched struct {
 	Filter   func(kind OpKind, label string) bool
 	Horizon  time.Duration
 	MaxSteps int
+	// DeviationCost: bound deviations from the default schedule (any non-default choice costs 1) instead of
+	// preemptions only (choices offered when the running thread blocks or ends are then no longer free).
+	DeviationCost bool
 	Deadlock bool
 	Diverged string
 	StepCap  bool
@@ -132,7 +138,7 @@ func (s *Sched) self() (*thread, bool) {
 	if t == nil {
 		// adopt a goroutine spawned by repo code
 		fresh = true
-		t = &thread{id: len(s.threads), name: "g:" + creator(), resume: make(chan bool)}
+		t = &thread{id: len(s.threads), gid: g, name: "g:" + creator(), resume: make(chan bool)}
 		s.threads = append(s.threads, t)
 		s.byG[g] = t
 	}
@@ -173,6 +179,7 @@ func (s *Sched) Point(kind OpKind, label string, lock *LockState) {
 		}
 	}
 	t.kind, t.label, t.lock = kind, label, lock
+	t.silent = kind == OpResume || (kind != OpYield && kind != OpStart && s.Filter != nil && !s.Filter(kind, label))
 	atomic.StoreInt32(&t.state, stParked)
 	select {
 	case s.arrive <- struct{}{}:
@@ -206,6 +213,17 @@ func (s *Sched) enabled() []*thread {
 		out = append(out, t)
 	}
 	s.mu.Unlock()
+	// harness threads by id, then adopted threads by goroutine id
+	sort.SliceStable(out, func(i, j int) bool {
+		a, b := out[i], out[j]
+		if a.harness != b.harness {
+			return a.harness
+		}
+		if a.harness {
+			return a.id < b.id
+		}
+		return a.gid < b.gid
+	})
 	// canonical order: last running thread first if enabled (last if it is yielding), then ascending ids
 	if s.last != nil {
 		for i, t := range out {
@@ -228,6 +246,13 @@ func (s *Sched) enabled() []*thread {
 // thread costs 1; re-choosing a yielding thread while others are enabled costs 1; everything else is free.
 func (s *Sched) costs(en []*thread) []int {
 	c := make([]int, len(en))
+	if s.DeviationCost {
+		// deviation bounding: the canonical first choice is free, every other choice costs 1
+		for i := 1; i < len(c); i++ {
+			c[i] = 1
+		}
+		return c
+	}
 	if s.last == nil {
 		return c
 	}
@@ -305,6 +330,13 @@ func (s *Sched) Run() {
 		if len(s.Steps) >= s.MaxSteps {
 			s.StepCap = true
 			return
+		}
+		// threads parked at points the filter excludes are not branching points: run the first of them now
+		for _, t := range en {
+			if t.silent {
+				en = []*thread{t}
+				break
+			}
 		}
 		idx := 0
 		if n := len(s.Steps); n < len(s.prefix) {
